@@ -2,7 +2,9 @@ package main
 
 import (
 	"fmt"
+	"math/rand"
 
+	"github.com/yaricom/goNEAT/v4/neat"
 	"github.com/yaricom/goNEAT/v4/neat/genetics"
 )
 
@@ -75,7 +77,15 @@ func c01Check(c *Ctx, g *genetics.Genome, io ioSet, where string, detail func() 
 func c01OperatorHistory(c *Ctx) {
 	r := c.G
 	o := genOpts(r)
-	f := newFamily(r, o)
+	var f *Family
+	if c.Case%8 == 6 {
+		// a family of unrelated randomly constructed genomes, numbered as NewPopulationRandom numbers them
+		f = newRandomLineageFamily(r, o)
+		c.Count("histories.random_lineages", 1)
+	}
+	if f == nil {
+		f = newFamily(r, o)
+	}
 	steps := 150
 	if c.Tier == "thorough" {
 		steps = 600
@@ -128,6 +138,17 @@ func c01OperatorHistory(c *Ctx) {
 				return
 			}
 			c.Count("op."+op.String()+".ok", 1)
+			if child != nil && len(child.Genes) == 0 {
+				d := detail()
+				sa, sb := snapGenome(a), snapGenome(b)
+				d["parent1"], d["parent2"] = sa, sb
+				if op == opMateSinglePoint && diagnoseGeneLessChild([]*SnapGenome{sa, sb}) != nil && !shareInnovation(sa, sb) {
+					d["key"] = keyGeneLessChild
+				}
+				c.Eval(1)
+				c.Violate("wf/genesis", d, "child of %s has no genes and can not be expressed as a network", op)
+				return
+			}
 			if !c01Check(c, child, f.IO, "child of "+op.String(), detail) ||
 				!c01Check(c, a, f.IO, "first parent of "+op.String(), detail) || !c01Check(c, b, f.IO, "second parent of "+op.String(), detail) {
 				return
@@ -229,4 +250,45 @@ func min(a, b int) int {
 		return a
 	}
 	return b
+}
+
+func shareInnovation(a, b *SnapGenome) bool {
+	m := map[int64]bool{}
+	for _, g := range a.Genes {
+		m[g.Innov] = true
+	}
+	for _, g := range b.Genes {
+		if m[g.Innov] {
+			return true
+		}
+	}
+	return false
+}
+
+// newRandomLineageFamily builds a family of unrelated genomes the way NewPopulationRandom does
+func newRandomLineageFamily(r *rand.Rand, o *neat.Options) *Family {
+	in, out, maxHidden := 2+r.Intn(3), 1+r.Intn(2), 1+r.Intn(5)
+	recur := r.Intn(2) == 0
+	linkProb := pick(r, 0.3, 0.5, 0.8, 1.0)
+	var members []*genetics.Genome
+	for i := 0; i < 6+r.Intn(8); i++ {
+		g, err := genetics.VerifNewGenomeRand(i, in, out, r.Intn(maxHidden), maxHidden, recur, linkProb, o)
+		if err != nil || len(g.Genes) == 0 {
+			continue
+		}
+		if kind, _ := wf(g, nil, false); kind != "" {
+			panic("harness: newGenomeRand produced an ill-formed genome")
+		}
+		members = append(members, g)
+	}
+	if len(members) < 2 {
+		return nil
+	}
+	total := in + out + maxHidden
+	f := &Family{Opts: o, StartSrc: fmt.Sprintf("random-lineages(in=%d out=%d hidden<%d recur=%v p=%.1f)", in, out, maxHidden, recur, linkProb), maxSize: 24, nextId: 100}
+	// the counters as NewPopulationRandom sets them
+	f.Pop = genetics.VerifNewEmptyPopulation(int64(total*total+1), int32(total+1))
+	f.Members = members
+	f.IO = ioNodesOf(snapGenome(members[0]))
+	return f
 }
